@@ -185,6 +185,7 @@ def c06_steps(tier, seed):
         chan("chan-park", "park", 30 if q else 1500, seed),
         chan("chan-signal", "signal", 1500 if q else 100000, seed + 7),
     ]
+    st.append(miri("chan-miri-q", "m_channel", ["--shape", 3 * seed + 1], 16 if q else 256, timeout=400 if q else 3000))
     if not q:
         st += [miri("chan-miri-%d" % sh, "m_channel", ["--shape", sh + 4 * seed], 96, timeout=1500) for sh in range(0, 8)]
     return st
@@ -271,16 +272,16 @@ ITER_RULE = ("cases = stable points: after each burst of sigqueue'd signals (uni
              "itself; optional delays at IT_A_STORED/PIPE_WAKE/EX_* and a real delivery nested on the consumer at IT_FLUSH_*/IT_SCAN/"
              "IT_PS_*/IT_HAS_BEFORE_READ/EX_LOAD; add_signal from another thread mid-run) the harness waits until nothing is pending, "
              "no dispatch bracket is open, the self-pipe is empty (FIONREAD) and the consumer is blocked in read/poll according to "
-             "/proc, then checks the log; instances cover {SignalOnly, WithRawSiginfo, WithOrigin} x {wait, forever, poll_signal}; "
+             "/proc, then checks the log; instances cover {SignalOnly, WithRawSiginfo, WithOrigin} x {wait, forever, forever re-created after every item, wait + a second pending() batch drained by a helper thread, poll_signal}; "
              "distinct = distinct (instance kind, Director phase, burst class) and (instance kind, site at which a delivery nested)")
 
 
 def iter_steps(tier, seed, extra=0):
     q = tier == "quick"
     n = 2 if q else 12
-    return [native("iter-%d" % i, ["w_iter", "--instances", 9, "--rounds", 40 if q else 400, "--seed", seed * 100 + i + extra],
+    return [native("iter-%d" % i, ["w_iter", "--instances", 15, "--rounds", 30 if q else 300, "--seed", seed * 100 + i + extra],
                    timeout=300 if q else 1800) for i in range(n)] + \
-           ([] if q else [asan("iter-asan", ["w_iter", "--instances", 9, "--rounds", 100, "--seed", seed + 5 + extra], leaks=False, timeout=1800)])
+           ([] if q else [asan("iter-asan", ["w_iter", "--instances", 15, "--rounds", 60, "--seed", seed + 5 + extra], leaks=False, timeout=1800)])
 
 
 PLANS["C09"] = {
@@ -450,7 +451,7 @@ PLANS["C16"] = {
 
 def c17_steps(tier, seed):
     return [native("origin", ["w_origin", "--seed", seed, "--full"], timeout=900),
-            native("origin-via-iterator-under-fire", ["w_iter", "--instances", 9, "--rounds", 20, "--seed", seed, "--only", "WithOrigin"], timeout=600)]
+            native("origin-via-iterator-under-fire", ["w_iter", "--instances", 15, "--rounds", 20, "--seed", seed, "--only", "WithOrigin"], timeout=600)]
 
 
 PLANS["C17"] = {
@@ -502,6 +503,7 @@ def c05_steps(tier, seed):
     q = tier == "quick"
     return [native("model-histories", ["w_model", "--seed", seed, "--procs", 16, "--ops", 20000 if q else 300000], timeout=600 if q else 3000),
             native("model-concurrent-owners", ["w_model", "--seed", seed + 3, "--procs", 8, "--threads", 3, "--ops", 15000 if q else 200000], timeout=600 if q else 3000),
+            native("fresh-and-race-remove", ["w_model", "--seed", seed + 4, "--procs", 4, "--race-remove", "--ops", 1500 if q else 30000], timeout=600 if q else 3000),
             native("restart-under-fire", ["w_reg", "--mode", "stress", "--phase", "none", "--rounds", 10 if q else 100, "--round-ms", 60, "--seed", seed + 9])]
 
 
@@ -529,7 +531,7 @@ def c03_steps(tier, seed):
         native("freeze-sweep", ["w_freeze", "--seed", seed], timeout=900),
         strace("actions-strace", ["w_strace", "--what", "actions", "--rounds", 5 if q else 200], oracle="c03", timeout=600),
         native("alloc-watch-registry", ["w_reg", "--mode", "stress", "--phase", "raise", "--rounds", 12 if q else 150, "--round-ms", 80, "--seed", seed + 31]),
-        native("alloc-watch-iterators", ["w_iter", "--instances", 9, "--rounds", 25 if q else 300, "--seed", seed + 32], timeout=900),
+        native("alloc-watch-iterators", ["w_iter", "--instances", 15, "--rounds", 15 if q else 200, "--seed", seed + 32], timeout=900),
         native("channel-nested-in-handler", ["w_channel", "--mode", "signal", "--histories", 800 if q else 40000, "--seed", seed + 33, "--heap", 0], also=["C08"]),
         native("wake-on-full-descriptors", ["w_pipe", "--seed", seed + 34, "--cycles", 200], also=["C13"]),
         # an armed shutdown must leave with _exit: running exit-time hooks inside the handler is not async-signal-safe
